@@ -81,6 +81,13 @@ def unpivot(unpivot_fields, extra_keys, extra_value, regex=True, resources=None)
             if primary_key and (any(k not in config['fields_to_keep'] for k in primary_key) or
                                 len(config['unpivot_fields_without_regex']) != 1):
                 del schema['primaryKey']
+            if len(config['unpivot_fields_without_regex']) != 1:
+                # ... and the cells of a kept field are repeated: it is not unique any more
+                for i, field in enumerate(fields):
+                    if (field.get('constraints') or {}).get('unique'):
+                        constraints = dict(field['constraints'])
+                        del constraints['unique']
+                        fields[i] = dict(field, constraints=constraints)
             # one descriptor per resource: a shared dict would make a later change to the field
             # in one resource show up in all of them
             fields.extend(copy.deepcopy(extra_keys))
